@@ -44,6 +44,7 @@ THEOREMS = [
     "HedVerif.C18.crash_atomicity",
     "HedVerif.C18.restore_recoverable",
     "HedVerif.C18.stale_manager_overwrites_example",
+    "HedVerif.C18.restore_case_sensitive_example",
 ]
 BUDGET = {"quick": 600, "thorough": 3000}
 STAMP = "2026-01-02 03:04:05.678901"
@@ -281,7 +282,9 @@ def forked(fn, outpath):
 
 # ------------------------------------------------------------------------------------ scenarios
 
-DIRS = ["sub-01", "sub-02", "ses-1", "eeg", "a b", "x}y", "q,{z", "derivatives", "remodel", "d:e", 'w"q', "b\\s", "\u00e9\u4e2d", "\U0001F600 d"]
+# directory names: case matters on this file system (`sub-a01` and `sub-A01` are different directories); the
+# backup key must preserve the case of every component
+DIRS = ["sub-01", "sub-A02", "ses-Pre", "EEG", "eeg", "sub-a01", "sub-A01", "ses-1", "a b", "x}y", "q,{z", "derivatives", "remodel", "d:e", 'w"q', "b\\s", "\u00e9\u4e2d", "\U0001F600 d"]
 BASES = ["sub-01_task-go_events.tsv", "task_go_run-1_events.tsv", "task_stop_events.tsv", "x_task_go_task_stop_events.tsv",
          "sub-02_task-stop_events.tsv", "run-2_Events.TSV", "participants.tsv", "README", "notes}.txt", 'odd"name.tsv',
          "events.tsv", "t,a:b_events.tsv", "back\\slash_events.tsv", "task_nosuch.dat",
@@ -312,7 +315,7 @@ def gen_tree(rng, allow_odd, in_derivatives=True):
     for _ in range(rng.randint(0, 4)):
         parent = rng.choice(dirs)
         if len(parent) < 3:
-            d = rng.choice(DIRS if allow_odd else DIRS[:4])
+            d = rng.choice(DIRS if allow_odd else DIRS[:8])
             if d == "derivatives" and (parent or not in_derivatives):
                 continue
             if parent + [d] not in dirs:
@@ -581,7 +584,7 @@ def gen_task_history(rng, idx):
     """directed: files of three tasks, all backed up; files of EVERY listed task (and of unlisted ones) are
     modified or deleted before a restore restricted to a 2-3 element task list; the lists run through
     every order of 2 or 3 names out of go/stop/rest/nosuch (nosuch matches no file)"""
-    dirs = [[], ["sub-01"], ["sub-02", "ses-1"], ["eeg"]]
+    dirs = [[], ["sub-A01"], ["sub-a01"], ["sub-02", "ses-Pre"], ["EEG"], ["eeg"]]
     files = {}
     for t, names in TASK_FILES.items():
         for nm in names[:rng.randint(1, 2)]:
@@ -857,7 +860,7 @@ def gen_opcrash(rng, i):
     extra = {}
     for nm in rng.sample(["task_go_events.tsv", "sub-01_task-go_events.tsv", "sub-02_task-stop_events.tsv",
                           "x_task_stop_task-go_events.tsv"], rng.randint(1, 3)):
-        extra[tuple(rng.choice([[], ["sub-01"], ["sub-02", "ses-1"]]) + [nm])] = gen_tsv(rng, False, floats=False)
+        extra[tuple(rng.choice([[], ["sub-A01"], ["sub-a01"], ["sub-02", "ses-Pre"], ["EEG"]]) + [nm])] = gen_tsv(rng, False, floats=False)
     have = {tuple(t[0]) for t in tree}
     tree += [[list(k), v.decode("latin-1")] for k, v in sorted(extra.items()) if k not in have]
     rels = [t[0] for t in tree]
@@ -1253,6 +1256,8 @@ CORPUS = [
     {"kind": "crash", "tree": [[["sub-01", "sub-01_task-go_events.tsv"], "onset\ttrial_type\n1\tgo\n"], [["README"], "x"]],
      "files": [["sub-01", "sub-01_task-go_events.tsv"], ["README"]], "name": "default_back", "pre": [], "ext": False},
     {"kind": "crash", "tree": [[["a"], ""]], "files": [["a"]], "name": "b", "pre": [], "ext": False},
+    {"kind": "crash", "tree": [[["sub-A01", "x_events.tsv"], "UPPER\n"], [["sub-a01", "x_events.tsv"], "lower\n"]],
+     "files": [["sub-A01", "x_events.tsv"], ["sub-a01", "x_events.tsv"]], "name": "b", "pre": [], "ext": False},
     {"kind": "crash", "tree": [[["a"], "12345"]], "files": [["a"]], "name": "b", "pre": [{"name": "b", "files": [["a"]]}], "ext": False},
     {"kind": "crash", "tree": [[["a"], "12345"]], "files": [], "name": "b", "pre": [], "ext": True},
     {"kind": "crash", "tree": [[["a"], "12345"], [["c_events.tsv"], "x\n1\n"]], "files": [["a"], ["c_events.tsv"]], "name": "b",
